@@ -77,6 +77,7 @@ DEFAULT_PROFILE: Dict[str, Any] = {
     'imports_last': False,    # every module defines first and imports at the bottom (so a module that is read while half built
                               # - import cycles - has already defined everything it defines itself)
     'back_edge_bottom': False,  # cyclic worlds: the imports that close a cycle sit at the bottom of the module, after every definition
+    'docassign_modules': False,  # __doc__ assignments may also target a module through its alias
     'submodule_clash': 0.0,   # probability that a package __init__ defines a function named like a sub-module nothing imports
     'private_defs': 0.0,      # probability that a module-level definition has a _private name
     'module_deco': 0.0,       # probability per module-level function of a @staticmethod / @classmethod decorator
@@ -797,6 +798,9 @@ class _Gen:
                 if b[0] == 'd' and r in ('from', 'from-as') and self.defs[b[1]]['kind'] in ('func', 'class'):
                     targets.append((n, b[1], r))
                 elif b[0] == 'm' and r in ('import-as', 'frompkg') and b[1] in self.done:
+                    if p.get('docassign_modules') and b[1] in self.modules:
+                        # the module itself: `import q.b as m; m.__doc__ = ...`
+                        targets.append((n, -self.modules[b[1]]['mid'], r + '-module'))
                     for n2, b2 in self.ns[b[1]].items():
                         if b2[0] == 'd' and self.defs[b2[1]]['kind'] in ('func', 'class') and \
                                 self._routes.get((b[1], n2)) == 'local':
@@ -806,8 +810,9 @@ class _Gen:
             if targets:
                 expr, tid, r = rng.choice(targets)
                 self.docassigned.add(tid)
-                body.append({'k': 'docassign', 'target': {'expr': expr, 'id': tid, 'route': r},
-                             'text': f'Marker M{tid}M. Reassigned from {mod}.'})
+                # (a negative id stands for a module, which has no entry in defs)
+                body.append({'k': 'docassign', 'target': {'expr': expr, 'id': tid if tid > 0 else None, 'route': r, 'module_id': -tid if tid < 0 else None},
+                             'text': f'Marker M{abs(tid)}M. Reassigned from {mod}.'})
                 self.exotic.add('docassign')
         # alias of a method at module level (may then be re-exported by someone else)
         if rng.chance(p['method_alias_reexport']):
